@@ -360,6 +360,21 @@ int process_start(pid_t *process,
                        options.handle.err };
 
     for (int i = 0; i < (int) ARRAY_SIZE(redirect); i++) {
+      // A handle that is itself one of the standard streams (but not the one
+      // we're redirecting) would be overwritten by one of the other `dup2`
+      // calls or closed by `exec`, so we work with a copy instead.
+      if (redirect[i] >= 0 && redirect[i] <= 2 && redirect[i] != i) {
+        r = fcntl(redirect[i], F_DUPFD_CLOEXEC, 3);
+        if (r < 0) {
+          r = -errno;
+          goto child;
+        }
+
+        redirect[i] = r;
+      }
+    }
+
+    for (int i = 0; i < (int) ARRAY_SIZE(redirect); i++) {
       // `i` corresponds to the standard stream we need to redirect.
       r = dup2(redirect[i], i);
       if (r < 0) {
@@ -368,10 +383,9 @@ int process_start(pid_t *process,
       }
 
       // Make sure we don't accidentally cloexec the standard streams of the
-      // child process when we're inheriting the parent standard streams. If we
-      // don't call `exec`, the caller is responsible for closing the redirect
-      // and exit handles.
-      if (redirect[i] != i) {
+      // child process. If we don't call `exec`, the caller is responsible for
+      // closing the redirect and exit handles.
+      if (redirect[i] > 2) {
         // Make sure the pipe is closed when we call exec.
         r = handle_cloexec(redirect[i], true);
         if (r < 0) {
